@@ -276,11 +276,13 @@ TQuiesce ==
 HungByFlush(c) == /\ c \in Running /\ cmds[c].k \in {"h2d", "d2h"} /\ AllMoved(c)
                   /\ \A r \in ReqsOf(c) : reqs[r].st = "taken"
                   /\ cmds[c].lastTake = "flush"
+\* as implemented: a copy of zero bytes that needs no flush sends nothing, so nothing ever completes it
+HungEmpty(c) == c \in Running /\ cmds[c].k \in {"h2d", "d2h"} /\ cmds[c].n = 0 /\ ReqsOf(c) = {}
 TQuiesceHung ==
   /\ Is("Quiesce") /\ Ev.pend # <<>>
-  /\ \A i \in 1..Len(Ev.pend) : HungByFlush(Ev.pend[i])
-  /\ \A c \in Running : HungByFlush(c)
-  /\ Deviation("flush_rsp_no_complete")
+  /\ \A i \in 1..Len(Ev.pend) : HungByFlush(Ev.pend[i]) \/ HungEmpty(Ev.pend[i])
+  /\ \A c \in Running : HungByFlush(c) \/ HungEmpty(c)
+  /\ IF \E c \in Running : HungEmpty(c) THEN Deviation("empty_copy_no_complete") ELSE Deviation("flush_rsp_no_complete")
   /\ Same(<<cfg, pt, bufs, claunch, launches, lastFlush, cmds, reqs, arch, sto, alen, taint>>)
 
 \* as implemented: Context.removeFreedBuffers (called by a flushing D2H) mutates the slice it ranges over
